@@ -67,7 +67,8 @@ def parse(design):
                 for b, sub in enumerate(branches):
                     is_else = has_else and b == len(branches) - 1
                     if not is_else:
-                        conds.append(add_input(f"c{i}_{b}"))
+                        # design["cw"]: width of If/Elif conditions (a multi-bit condition holds when non-zero)
+                        conds.append(add_input(f"c{i}_{b}", design.get("cw", 1)))
                 info.structs[i] = Obj(kind="if", conds=conds, has_else=has_else, n=len(branches))
                 for b, sub in enumerate(branches):
                     walk(mod, sub, path + (("alt", i, b),), cur)
